@@ -1,7 +1,7 @@
 (** Exactness of the range-scan read path (Model/Range.v) against the ordered-map Spec
     (Model/Entry.v: [spec_range]) for every interleaving of next / next_back. *)
 From LsmV Require Import Model.Range Proofs.Newest.
-From Coq Require Import Permutation Sorting.Sorted.
+From Coq Require Import Permutation Sorting.Sorted PeanoNat.
 Open Scope N_scope.
 Arguments N.add : simpl never.
 Arguments N.sub : simpl never.
@@ -240,4 +240,1058 @@ Proof.
   rewrite bounds_widening by (apply Hs; left; reflexivity).
   rewrite (in_bounds_inverted lo hi (ukey e) a b Hlo Hhi Hba).
   apply IH. intros x Hx. apply Hs. right. exact Hx.
+Qed.
+
+(** * 4. Deque semantics and the generic layers *)
+
+Definition ohd (l : list entry) : option entry :=
+  match l with [] => None | x :: _ => Some x end.
+Definition olast (l : list entry) : option entry :=
+  match l with [] => None | x :: _ => Some (last l x) end.
+
+(** deque semantics: pops from either end of a list *)
+Fixpoint deque_run (l : list entry) (ps : list pull) : list (option entry) :=
+  match ps with
+  | [] => []
+  | Front :: ps' => ohd l :: deque_run (tl l) ps'
+  | Back :: ps' => olast l :: deque_run (removelast l) ps'
+  end.
+
+Lemma olast_snoc l x : olast (l ++ [x]) = Some x.
+Proof.
+  destruct l as [|a l]; [reflexivity|]. simpl app. unfold olast.
+  f_equal. change (a :: l ++ [x]) with ((a :: l) ++ [x]). apply last_last.
+Qed.
+
+(** the drop of the leading block of key [k] *)
+Fixpoint drop_key (k : key) (l : list entry) : list entry :=
+  match l with
+  | [] => []
+  | e :: l' => if key_eqb (ukey e) k then drop_key k l' else l
+  end.
+
+Lemma drop_key_length k l : (length (drop_key k l) <= length l)%nat.
+Proof.
+  induction l as [|e l IH]; simpl; [lia|]. destruct (key_eqb (ukey e) k); simpl; lia.
+Qed.
+
+(** what MvccStream::next_back does, on the reversed remaining stream: [t] is the popped
+    tail, [rl] the rest, newest-last *)
+Fixpoint back_scan (t : entry) (rl : list entry) : entry * list entry :=
+  match rl with
+  | [] => (t, [])
+  | p :: rl' => if key_ltb (ukey p) (ukey t) then (t, rl) else back_scan p rl'
+  end.
+
+Lemma back_scan_length t rl : (length (snd (back_scan t rl)) <= length rl)%nat.
+Proof.
+  revert t; induction rl as [|p rl IH]; intros t; simpl; [lia|].
+  destruct (key_ltb (ukey p) (ukey t)); simpl; [lia|]. specialize (IH p). lia.
+Qed.
+
+Definition mvcc_back_out (l : list entry) : option entry :=
+  match rev l with [] => None | t :: rl => Some (fst (back_scan t rl)) end.
+Definition mvcc_back_rest (l : list entry) : list entry :=
+  match rev l with [] => [] | t :: rl => rev (snd (back_scan t rl)) end.
+
+Section LayerProofs.
+  Variable I : Type.
+  Variable inext inext_back : I -> option entry * I.
+  (** [R it l]: the inner iterator [it] behaves as a deque holding [l] *)
+  Variable R : I -> list entry -> Prop.
+  Hypothesis Hnext : forall it l, R it l ->
+    exists it', inext it = (ohd l, it') /\ R it' (tl l).
+  Hypothesis Hback : forall it l, R it l ->
+    exists it', inext_back it = (olast l, it') /\ R it' (removelast l).
+
+  Definition pv (p : maybe_peeked) : list entry :=
+    match peeked_value p with Some x => [x] | None => [] end.
+
+  (** the peekable holds [front-peeked ++ inner ++ back-peeked]; a peeked [None] records
+      that the inner iterator is exhausted *)
+  Definition DR (d : dep I) (l : list entry) : Prop :=
+    exists lm, R (d_iter d) lm /\ l = pv (d_front d) ++ lm ++ pv (d_back d)
+      /\ (d_front d = Peeked None -> lm = []) /\ (d_back d = Peeked None -> lm = []).
+
+  Lemma dep_next_spec d l : DR d l ->
+    exists d', dep_next I inext d = (ohd l, d') /\ DR d' (tl l).
+  Proof.
+    intros (lm & HR & -> & Hf & Hb). unfold dep_next.
+    destruct d as [it f b]; simpl in *.
+    destruct f as [|[x|]].
+    - (* Unpeeked *)
+      destruct (Hnext _ _ HR) as (it' & E & HR'). rewrite E.
+      destruct lm as [|y lm]; simpl in *.
+      + exists (mkDep it' Unpeeked Unpeeked). split.
+        * unfold pv. destruct (peeked_value b); reflexivity.
+        * exists []. simpl. repeat split; auto.
+          unfold pv. destruct (peeked_value b); reflexivity.
+      + exists (mkDep it' Unpeeked b). split; [reflexivity|].
+        exists lm. simpl. repeat split; auto; [discriminate|].
+        intros Hb'. specialize (Hb Hb'). discriminate.
+    - (* Peeked (Some x) *)
+      exists (mkDep it Unpeeked b). split; [reflexivity|].
+      exists lm. simpl. repeat split; auto. discriminate.
+    - (* Peeked None *)
+      specialize (Hf eq_refl). subst lm. simpl.
+      exists (mkDep it Unpeeked Unpeeked). split.
+      + unfold pv. destruct (peeked_value b); reflexivity.
+      + exists []. simpl. repeat split; auto; try discriminate.
+        unfold pv. destruct (peeked_value b); reflexivity.
+  Qed.
+
+  Lemma olast_mid f lm b :
+    olast (f ++ lm ++ pv b) =
+    match peeked_value b with
+    | Some y => Some y
+    | None => olast (f ++ lm)
+    end.
+  Proof.
+    unfold pv. destruct (peeked_value b) as [y|].
+    - rewrite app_assoc. apply olast_snoc.
+    - now rewrite !app_nil_r.
+  Qed.
+
+  Lemma removelast_mid f lm b :
+    removelast (f ++ lm ++ pv b) =
+    match peeked_value b with
+    | Some y => f ++ lm
+    | None => removelast (f ++ lm)
+    end.
+  Proof.
+    unfold pv. destruct (peeked_value b) as [y|].
+    - rewrite app_assoc. apply rg_removelast_app_last.
+    - now rewrite !app_nil_r.
+  Qed.
+
+  Lemma olast_pv_app f lm : lm <> [] -> olast (pv f ++ lm) = olast lm.
+  Proof.
+    intros Hne. destruct (rg_snoc_cases lm) as [->|(l' & x & ->)]; [congruence|].
+    rewrite app_assoc, !olast_snoc. reflexivity.
+  Qed.
+
+  Lemma removelast_pv_app f lm : lm <> [] -> removelast (pv f ++ lm) = pv f ++ removelast lm.
+  Proof. intros Hne. now apply removelast_app. Qed.
+
+  Lemma olast_pv f : olast (pv f) = peeked_value f.
+  Proof. unfold pv. destruct (peeked_value f); reflexivity. Qed.
+
+  Lemma removelast_pv f : removelast (pv f) = [].
+  Proof. unfold pv. destruct (peeked_value f); reflexivity. Qed.
+
+  Lemma dep_next_back_spec d l : DR d l ->
+    exists d', dep_next_back I inext_back d = (olast l, d') /\ DR d' (removelast l).
+  Proof.
+    intros (lm & HR & -> & Hf & Hb). unfold dep_next_back.
+    destruct d as [it f b]; cbn [d_iter d_front d_back] in *.
+    rewrite olast_mid, removelast_mid.
+    destruct b as [|[y|]]; cbn [peeked_value].
+    - (* Unpeeked *)
+      destruct (Hback _ _ HR) as (it' & E & HR'). rewrite E.
+      destruct (rg_snoc_cases lm) as [->|(lm' & y & ->)].
+      + cbn [olast]. rewrite app_nil_r, olast_pv, removelast_pv.
+        exists (mkDep it' Unpeeked Unpeeked). split; [reflexivity|].
+        exists []. cbn [d_iter d_front d_back removelast] in *. repeat split; auto.
+      + rewrite olast_snoc. rewrite rg_removelast_app_last in HR'.
+        rewrite app_assoc, olast_snoc, rg_removelast_app_last.
+        exists (mkDep it' f Unpeeked). split; [reflexivity|].
+        exists lm'. cbn [d_iter d_front d_back]. repeat split; auto.
+        * unfold pv at 2. cbn [peeked_value]. now rewrite app_nil_r.
+        * intros Hf'. specialize (Hf Hf'). destruct lm'; discriminate.
+        * discriminate.
+    - (* Peeked (Some y) *)
+      exists (mkDep it f Unpeeked). split; [reflexivity|].
+      exists lm. cbn [d_iter d_front d_back]. repeat split; auto; [|discriminate].
+      unfold pv at 2. cbn [peeked_value]. now rewrite app_nil_r.
+    - (* Peeked None *)
+      specialize (Hb eq_refl). subst lm.
+      rewrite app_nil_r, olast_pv, removelast_pv.
+      exists (mkDep it Unpeeked Unpeeked). split; [reflexivity|].
+      exists []. cbn [d_iter d_front d_back]. repeat split; auto; discriminate.
+  Qed.
+
+  Lemma dep_peek_back_spec d l : DR d l ->
+    exists d', dep_peek_back I inext_back d = (olast l, d') /\ DR d' l.
+  Proof.
+    intros (lm & HR & -> & Hf & Hb). unfold dep_peek_back.
+    destruct d as [it f b]; cbn [d_iter d_front d_back] in *.
+    destruct b as [|[y|]].
+    - destruct (Hback _ _ HR) as (it' & E & HR'). rewrite E.
+      cbn [d_iter d_front d_back peeked_value].
+      unfold pv at 2. cbn [peeked_value]. rewrite app_nil_r.
+      destruct (rg_snoc_cases lm) as [->|(lm' & y & ->)].
+      + cbn [olast removelast] in *. rewrite app_nil_r, olast_pv.
+        exists (mkDep it' f (Peeked None)). split; [reflexivity|].
+        exists []. cbn [d_iter d_front d_back]. repeat split; auto.
+      + rewrite olast_snoc in *. rewrite rg_removelast_app_last in HR'.
+        rewrite app_assoc, olast_snoc.
+        exists (mkDep it' f (Peeked (Some y))). split; [reflexivity|].
+        exists lm'. cbn [d_iter d_front d_back]. repeat split; auto.
+        * unfold pv at 3. cbn [peeked_value]. now rewrite <- app_assoc.
+        * intros Hf'. specialize (Hf Hf'). destruct lm'; discriminate.
+        * discriminate.
+    - exists (mkDep it f (Peeked (Some y))). split.
+      + rewrite olast_mid. reflexivity.
+      + exists lm. cbn [d_iter d_front d_back]. repeat split; auto.
+    - specialize (Hb eq_refl). subst lm. cbn [d_iter d_front d_back peeked_value].
+      unfold pv at 2. cbn [peeked_value]. rewrite !app_nil_r, olast_pv.
+      exists (mkDep it f (Peeked None)). split; [reflexivity|].
+      exists []. cbn [d_iter d_front d_back]. repeat split; auto.
+      unfold pv at 3. cbn [peeked_value app]. now rewrite app_nil_r.
+  Qed.
+
+  Lemma dep_next_if_spec p d l : DR d l ->
+    exists d', dep_next_if I inext p d =
+      (match l with x :: _ => if p x then Some x else None | [] => None end, d')
+      /\ DR d' (match l with x :: l' => if p x then l' else l | [] => [] end).
+  Proof.
+    intros H. unfold dep_next_if.
+    destruct (dep_next_spec _ _ H) as (d' & E & (lm & HR & El & Hf & Hb)). rewrite E.
+    destruct l as [|x l']; simpl in *.
+    - exists (mkDep (d_iter d') (Peeked None) (d_back d')). split; [reflexivity|].
+      symmetry in El. apply app_eq_nil in El. destruct El as [E1 E2].
+      apply app_eq_nil in E2. destruct E2 as [E2 E3]. subst lm.
+      exists []. simpl. repeat split; auto; try (now rewrite E3).
+    - destruct (p x).
+      + exists d'. split; [reflexivity|]. exists lm. auto.
+      + exists (mkDep (d_iter d') (Peeked (Some x)) (d_back d')). split; [reflexivity|].
+        (* after dep_next the front slot is Unpeeked *)
+        assert (Hfu : d_front d' = Unpeeked).
+        { revert E. unfold dep_next. destruct (d_front d) as [|[?|]].
+          - destruct (inext (d_iter d)) as [[?|] ?]; intros E; inversion E; reflexivity.
+          - intros E; inversion E; reflexivity.
+          - intros E; inversion E; reflexivity. }
+        rewrite Hfu in El. simpl in El.
+        exists lm. simpl. repeat split; auto; [|discriminate].
+        unfold pv at 1. simpl. now rewrite El.
+  Qed.
+
+  Lemma drain_spec fuel k d l : DR d l -> (length l < fuel)%nat ->
+    DR (drain_key_min I inext fuel k d) (drop_key k l).
+  Proof.
+    revert d l; induction fuel as [|fuel IH]; intros d l H Hlen; [lia|].
+    cbn [drain_key_min]. destruct (dep_next_if_spec (fun kv => key_eqb (ukey kv) k) _ _ H) as (d' & E & H').
+    rewrite E. destruct l as [|x l']; simpl in *; [exact H'|].
+    destruct (key_eqb (ukey x) k).
+    - apply IH; [exact H'|lia].
+    - exact H'.
+  Qed.
+
+  Lemma mvcc_next_spec fuel d l : DR d l -> (length l <= fuel)%nat ->
+    exists d', mvcc_next I inext fuel d = (ohd l, d')
+      /\ DR d' (match l with x :: l' => drop_key (ukey x) l' | [] => [] end).
+  Proof.
+    intros H Hlen. unfold mvcc_next.
+    destruct (dep_next_spec _ _ H) as (d' & E & H'). rewrite E.
+    destruct l as [|x l']; simpl in *; [eauto|].
+    eexists. split; [reflexivity|]. apply drain_spec; [exact H'|lia].
+  Qed.
+
+  Lemma mvcc_next_back_spec fuel d l : DR d l -> (length l < fuel)%nat ->
+    exists d', mvcc_next_back I inext_back fuel d = (mvcc_back_out l, d')
+      /\ DR d' (mvcc_back_rest l).
+  Proof.
+    unfold mvcc_back_out, mvcc_back_rest.
+    revert d l; induction fuel as [|fuel IH]; intros d l H Hlen; [lia|].
+    cbn [mvcc_next_back]. destruct (dep_next_back_spec _ _ H) as (d1 & E1 & H1). rewrite E1.
+    destruct (rg_snoc_cases l) as [->|(l1 & t & ->)]; [simpl; eauto|].
+    rewrite olast_snoc. rewrite rg_removelast_app_last in H1.
+    rewrite rev_app_distr. simpl rev. simpl app. cbv iota.
+    destruct (dep_peek_back_spec _ _ H1) as (d2 & E2 & H2). rewrite E2.
+    destruct (rg_snoc_cases l1) as [->|(l2 & p & ->)]; [simpl; eauto|].
+    rewrite olast_snoc. rewrite rev_app_distr. simpl rev. simpl app. cbv iota.
+    simpl back_scan. destruct (key_ltb (ukey p) (ukey t)).
+    - exists d2. split; [reflexivity|]. simpl. rewrite rev_involutive. exact H2.
+    - assert (Hlen2 : (length (l2 ++ [p]) < fuel)%nat).
+      { rewrite !app_length in Hlen. rewrite app_length. simpl in *. lia. }
+      destruct (IH d2 (l2 ++ [p]) H2 Hlen2) as (d3 & E3 & H3).
+      rewrite rev_app_distr in E3, H3. simpl in E3, H3. eauto.
+  Qed.
+End LayerProofs.
+
+(** * 5. What MvccStream computes: the first entry of every user-key group *)
+
+Fixpoint heads_from (prev : option key) (l : list entry) : list entry :=
+  match l with
+  | [] => []
+  | e :: l' =>
+      let rest := heads_from (Some (ukey e)) l' in
+      match prev with
+      | Some k => if key_eqb k (ukey e) then rest else e :: rest
+      | None => e :: rest
+      end
+  end.
+
+Definition heads (l : list entry) : list entry := heads_from None l.
+
+(** sorted by user key (not strictly) *)
+Definition ksorted (l : list entry) : Prop :=
+  StronglySorted (fun a b => key_le (ukey a) (ukey b)) l.
+
+Definition nt (e : entry) : bool := negb (is_tomb e).
+Definition live_out (l : list entry) : list entry := filter nt (heads l).
+
+Lemma heads_from_drop k l : heads_from (Some k) l = heads (drop_key k l).
+Proof.
+  induction l as [|e l IH]; [reflexivity|]. cbn [heads_from drop_key].
+  rewrite (key_eqb_sym k (ukey e)). destruct (key_eqb (ukey e) k) eqn:E.
+  - apply key_eqb_eq in E. rewrite E. exact IH.
+  - unfold heads. cbn [heads_from]. reflexivity.
+Qed.
+
+Lemma heads_cons x l : heads (x :: l) = x :: heads (drop_key (ukey x) l).
+Proof. unfold heads at 1. cbn [heads_from]. now rewrite heads_from_drop. Qed.
+
+Definition lastkey (prev : option key) (l : list entry) : option key :=
+  match olast l with Some e => Some (ukey e) | None => prev end.
+
+Lemma lastkey_cons prev e l : lastkey prev (e :: l) = lastkey (Some (ukey e)) l.
+Proof.
+  unfold lastkey. destruct (rg_snoc_cases l) as [->|(l' & x & ->)]; [reflexivity|].
+  change (e :: l' ++ [x]) with ((e :: l') ++ [x]). now rewrite !olast_snoc.
+Qed.
+
+Lemma heads_from_snoc prev l t :
+  heads_from prev (l ++ [t]) =
+  heads_from prev l ++
+  match lastkey prev l with
+  | Some k => if key_eqb k (ukey t) then [] else [t]
+  | None => [t]
+  end.
+Proof.
+  revert prev; induction l as [|e l IH]; intros prev.
+  - cbn [app heads_from]. unfold lastkey. cbn [olast].
+    destruct prev as [k|]; [destruct (key_eqb k (ukey t))|]; reflexivity.
+  - cbn [app heads_from]. rewrite IH, lastkey_cons.
+    destruct prev as [k|]; [destruct (key_eqb k (ukey e))|]; reflexivity.
+Qed.
+
+Lemma ksorted_drop_key k l : ksorted l -> ksorted (drop_key k l).
+Proof.
+  induction 1 as [|x l HS IH HF]; cbn [drop_key]; [constructor|].
+  destruct (key_eqb (ukey x) k); [exact IH|]. now constructor.
+Qed.
+
+Lemma back_scan_suffix t rl : exists pre, rl = pre ++ snd (back_scan t rl).
+Proof.
+  revert t; induction rl as [|p rl IH]; intros t; cbn [back_scan].
+  - exists []. reflexivity.
+  - destruct (key_ltb (ukey p) (ukey t)).
+    + exists []. reflexivity.
+    + destruct (IH p) as (pre & E). exists (p :: pre). cbn [app]. now rewrite <- E.
+Qed.
+
+Lemma back_scan_heads rl t :
+  ksorted (rev rl ++ [t]) ->
+  heads (rev rl ++ [t]) = heads (rev (snd (back_scan t rl))) ++ [fst (back_scan t rl)].
+Proof.
+  revert t; induction rl as [|p rl IH]; intros t HS; [reflexivity|].
+  cbn [back_scan rev] in *. unfold heads at 1. rewrite heads_from_snoc.
+  unfold lastkey. rewrite olast_snoc.
+  destruct (key_ltb (ukey p) (ukey t)) eqn:E.
+  - cbn [fst snd rev]. key_prop.
+    destruct (key_eqb (ukey p) (ukey t)) eqn:E2; [|reflexivity].
+    key_prop. rewrite E2 in E. now apply key_lt_irrefl in E.
+  - assert (Ek : ukey p = ukey t).
+    { key_prop. apply key_le_antisym; [|exact E].
+      apply rg_SS_app_inv in HS. destruct HS as (_ & _ & HF).
+      apply (HF p t); [apply in_or_app; right|]; left; reflexivity. }
+    rewrite Ek, key_eqb_refl, app_nil_r. apply IH.
+    now apply rg_SS_app_inv in HS.
+Qed.
+
+Lemma mvcc_back_heads l : ksorted l ->
+  olast (heads l) = mvcc_back_out l /\ removelast (heads l) = heads (mvcc_back_rest l).
+Proof.
+  intros HS. unfold mvcc_back_out, mvcc_back_rest.
+  destruct (rg_snoc_cases l) as [->|(l1 & t & ->)]; [split; reflexivity|].
+  rewrite rev_app_distr. cbn [rev app].
+  rewrite <- (rev_involutive l1) in HS |- * at 1.
+  rewrite <- (rev_involutive l1) at 3.
+  rewrite (back_scan_heads (rev l1) t HS).
+  rewrite olast_snoc, rg_removelast_app_last. split; reflexivity.
+Qed.
+
+Lemma mvcc_back_rest_ksorted l : ksorted l -> ksorted (mvcc_back_rest l).
+Proof.
+  intros HS. unfold mvcc_back_rest.
+  destruct (rg_snoc_cases l) as [->|(l1 & t & ->)]; [constructor|].
+  rewrite rev_app_distr. cbn [rev app].
+  destruct (back_scan_suffix t (rev l1)) as (pre & E).
+  apply rg_SS_app_inv in HS. destruct HS as (HS & _ & _).
+  rewrite <- (rev_involutive l1), E, rev_app_distr in HS.
+  now apply rg_SS_app_inv in HS.
+Qed.
+
+Lemma mvcc_back_rest_length l : l <> [] -> (length (mvcc_back_rest l) < length l)%nat.
+Proof.
+  intros Hne. unfold mvcc_back_rest.
+  destruct (rg_snoc_cases l) as [->|(l1 & t & ->)]; [congruence|].
+  rewrite rev_app_distr. cbn [rev app]. rewrite rev_length, app_length. cbn [length].
+  pose proof (back_scan_length t (rev l1)) as H. rewrite rev_length in H. lia.
+Qed.
+
+Section LiveProofs.
+  Variable I : Type.
+  Variable inext inext_back : I -> option entry * I.
+  Variable R : I -> list entry -> Prop.
+  Hypothesis Hnext : forall it l, R it l ->
+    exists it', inext it = (ohd l, it') /\ R it' (tl l).
+  Hypothesis Hback : forall it l, R it l ->
+    exists it', inext_back it = (olast l, it') /\ R it' (removelast l).
+
+  Notation DR := (DR I R).
+
+  Lemma live_next_spec fuel d l : DR d l -> ksorted l -> (length l < fuel)%nat ->
+    exists d' l', live_next I inext fuel d = (ohd (live_out l), d')
+      /\ DR d' l' /\ ksorted l' /\ (length l' <= length l)%nat
+      /\ live_out l' = tl (live_out l).
+  Proof.
+    revert d l; induction fuel as [|fuel IH]; intros d l H HS Hlen; [lia|].
+    cbn [live_next].
+    destruct (mvcc_next_spec I inext R Hnext (S fuel) d l H) as (d1 & E1 & H1); [lia|].
+    rewrite E1. destruct l as [|x lr].
+    - exists d1, []. cbn. repeat split; auto; try constructor.
+    - cbn [ohd]. unfold live_out. rewrite heads_cons. cbn [filter].
+      assert (HS1 : ksorted (drop_key (ukey x) lr)).
+      { apply ksorted_drop_key. now inversion HS. }
+      pose proof (drop_key_length (ukey x) lr) as Hl. cbn [length] in Hlen.
+      fold (nt x). destruct (nt x) eqn:En; cbn [negb].
+      + exists d1, (drop_key (ukey x) lr). cbn [ohd tl length]. repeat split; auto; try lia.
+      + destruct (IH d1 _ H1 HS1) as (d' & l' & E & H' & HS' & Hl' & Ho); [lia|].
+        exists d', l'. unfold live_out in *. cbn [length]. repeat split; auto; try lia.
+  Qed.
+
+  Lemma live_next_back_spec fuel d l : DR d l -> ksorted l -> (length l < fuel)%nat ->
+    exists d' l', live_next_back I inext_back fuel d = (olast (live_out l), d')
+      /\ DR d' l' /\ ksorted l' /\ (length l' <= length l)%nat
+      /\ live_out l' = removelast (live_out l).
+  Proof.
+    revert d l; induction fuel as [|fuel IH]; intros d l H HS Hlen; [lia|].
+    cbn [live_next_back].
+    destruct (mvcc_next_back_spec I inext_back R Hback (S fuel) d l H Hlen) as (d1 & E1 & H1).
+    rewrite E1. destruct (mvcc_back_heads l HS) as [Eo Er].
+    pose proof (mvcc_back_rest_ksorted l HS) as HS1.
+    destruct (rg_snoc_cases l) as [->|(l1 & t & El)].
+    - exists d1, []. cbn. repeat split; auto.
+    - assert (Hne : l <> []) by (subst l; destruct l1; discriminate).
+      pose proof (mvcc_back_rest_length l Hne) as Hl.
+      unfold live_out.
+      destruct (rg_snoc_cases (heads l)) as [Eh|(hl & h & Eh)].
+      + exfalso. destruct l as [|a0 l0]; [congruence|]. rewrite heads_cons in Eh. discriminate.
+      + rewrite Eh in Eo, Er. rewrite olast_snoc in Eo. rewrite rg_removelast_app_last in Er.
+        rewrite <- Eo. rewrite Eh, filter_app. cbn [filter]. fold (nt h).
+        destruct (nt h) eqn:En; cbn [negb].
+        * exists d1, (mvcc_back_rest l). rewrite olast_snoc, rg_removelast_app_last, <- Er.
+          repeat split; auto; try lia.
+        * rewrite app_nil_r.
+          destruct (IH d1 _ H1 HS1) as (d' & l' & E & H' & HS' & Hl' & Ho); [lia|].
+          exists d', l'. unfold live_out in *. rewrite <- Er in E, Ho.
+          repeat split; auto; try lia.
+  Qed.
+
+  (** the tree iterator holds [o] (abstractly): some key-sorted stream [l] shorter than
+      the fuel whose live group heads are [o] *)
+  Definition TR (fuel : nat) (d : dep I) (o : list entry) : Prop :=
+    exists l, DR d l /\ ksorted l /\ (length l < fuel)%nat /\ o = live_out l.
+
+  Lemma live_next_TR fuel d o : TR fuel d o ->
+    exists d', live_next I inext fuel d = (ohd o, d') /\ TR fuel d' (tl o).
+  Proof.
+    intros (l & H & HS & Hlen & ->).
+    destruct (live_next_spec fuel d l H HS Hlen) as (d' & l' & E & H' & HS' & Hl' & Ho).
+    exists d'. split; [exact E|]. exists l'. repeat split; auto; try lia.
+  Qed.
+
+  Lemma live_next_back_TR fuel d o : TR fuel d o ->
+    exists d', live_next_back I inext_back fuel d = (olast o, d') /\ TR fuel d' (removelast o).
+  Proof.
+    intros (l & H & HS & Hlen & ->).
+    destruct (live_next_back_spec fuel d l H HS Hlen) as (d' & l' & E & H' & HS' & Hl' & Ho).
+    exists d'. split; [exact E|]. exists l'. repeat split; auto; try lia.
+  Qed.
+End LiveProofs.
+
+(** * 6. The Merger behaves as a deque over the sorted union of its sources *)
+
+(** abstract state of one source: (item held in the heap as front, items still in the
+    iterator, item held in the heap as back) *)
+Definition tri := (list entry * list entry * list entry)%type.
+Definition fr (t : tri) : list entry := fst (fst t).
+Definition mid (t : tri) : list entry := snd (fst t).
+Definition bk (t : tri) : list entry := snd t.
+Definition rem (t : tri) : list entry := fr t ++ mid t ++ bk t.
+
+Fixpoint iflat {X : Type} (g : nat -> tri -> list X) (k : nat) (ts : list tri) : list X :=
+  match ts with
+  | [] => []
+  | t :: ts' => g k t ++ iflat g (S k) ts'
+  end.
+
+Definition hg (i : nat) (t : tri) : heap := map (pair i) (fr t ++ bk t).
+Definition heap_of (ts : list tri) : heap := iflat hg 0 ts.
+Definition all_rem (ts : list tri) : list entry := iflat (fun _ t => rem t) 0 ts.
+
+Definition tri_ok (ilo ihi : bool) (t : tri) : Prop :=
+  (length (fr t) <= 1)%nat /\ (length (bk t) <= 1)%nat
+  /\ StronglySorted ikey_lt (rem t)
+  /\ (ilo = false -> fr t = []) /\ (ihi = false -> bk t = [])
+  /\ (ilo = true -> fr t = [] -> mid t = [])
+  /\ (ihi = true -> bk t = [] -> mid t = []).
+
+Definition MRI (ilo ihi : bool) (srcs : list (list entry)) (h : heap) (L : list entry) : Prop :=
+  exists ts, srcs = map mid ts /\ Permutation h (heap_of ts)
+    /\ Forall (tri_ok ilo ihi) ts
+    /\ Permutation L (all_rem ts) /\ StronglySorted ikey_lt L.
+
+Definition MR (m : merger) (L : list entry) : Prop :=
+  MRI (m_ilo m) (m_ihi m) (m_srcs m) (m_heap m) L.
+
+Lemma iflat_ctx {X : Type} (g : nat -> tri -> list X) ts : forall k i t,
+  nth_error ts i = Some t ->
+  exists A B, iflat g k ts = A ++ g (k + i)%nat t ++ B
+    /\ forall t', iflat g k (set_nth i t' ts) = A ++ g (k + i)%nat t' ++ B.
+Proof.
+  induction ts as [|t0 ts IH]; intros k i t Hn; [destruct i; discriminate|].
+  destruct i as [|i]; cbn [nth_error] in Hn.
+  - inversion Hn; subst t0. exists [], (iflat g (S k) ts). rewrite Nat.add_0_r.
+    split; [reflexivity|]. intros t'. reflexivity.
+  - destruct (IH (S k) i t Hn) as (A & B & E1 & E2).
+    exists (g k t0 ++ A), B. rewrite <- Nat.add_succ_comm. cbn [iflat set_nth].
+    split.
+    + rewrite E1. now rewrite app_assoc.
+    + intros t'. rewrite E2. now rewrite app_assoc.
+Qed.
+
+Lemma in_iflat {X : Type} (g : nat -> tri -> list X) ts : forall k x,
+  In x (iflat g k ts) <-> exists i t, nth_error ts i = Some t /\ In x (g (k + i)%nat t).
+Proof.
+  induction ts as [|t0 ts IH]; intros k x; cbn [iflat].
+  - split; [contradiction|]. intros (i & t & Hn & _). destruct i; discriminate.
+  - rewrite in_app_iff, IH. split.
+    + intros [H|(i & t & Hn & H)].
+      * exists O, t0. rewrite Nat.add_0_r. auto.
+      * exists (S i), t. rewrite <- Nat.add_succ_comm. auto.
+    + intros (i & t & Hn & H). destruct i as [|i]; cbn [nth_error] in Hn.
+      * inversion Hn; subst. rewrite Nat.add_0_r in H. auto.
+      * right. exists i, t. rewrite <- Nat.add_succ_comm in H. auto.
+Qed.
+
+Lemma in_heap_of ts i e :
+  In (i, e) (heap_of ts) <-> exists t, nth_error ts i = Some t /\ In e (fr t ++ bk t).
+Proof.
+  unfold heap_of. rewrite in_iflat. split.
+  - intros (j & t & Hn & H). cbn [Nat.add] in H. unfold hg in H.
+    apply in_map_iff in H. destruct H as (x & Ex & Hx). inversion Ex; subst. eauto.
+  - intros (t & Hn & H). exists i, t. split; [exact Hn|]. cbn [Nat.add]. unfold hg.
+    now apply in_map.
+Qed.
+
+Lemma in_all_rem ts e :
+  In e (all_rem ts) <-> exists i t, nth_error ts i = Some t /\ In e (rem t).
+Proof. unfold all_rem. apply in_iflat. Qed.
+
+Lemma map_set_nth {A B : Type} (f : A -> B) i x l :
+  map f (set_nth i x l) = set_nth i (f x) (map f l).
+Proof.
+  revert i; induction l as [|y l IH]; intros i; [destruct i; reflexivity|].
+  destruct i; cbn [set_nth map]; [reflexivity|]. now rewrite IH.
+Qed.
+
+Lemma nth_map_error {A B : Type} (f : A -> B) l i x d :
+  nth_error l i = Some x -> nth i (map f l) d = f x.
+Proof.
+  revert i; induction l as [|y l IH]; intros i Hn; [destruct i; discriminate|].
+  destruct i; cbn in *; [now inversion Hn|auto].
+Qed.
+
+Lemma Forall_set_nth {A : Type} (P : A -> Prop) i x l :
+  Forall P l -> P x -> Forall P (set_nth i x l).
+Proof.
+  intros HF Hx. revert i; induction HF as [|y l Hy HF IH]; intros i; [destruct i; constructor|].
+  destruct i; cbn [set_nth]; constructor; auto.
+Qed.
+
+Lemma Forall_nth_error {A : Type} (P : A -> Prop) l i x :
+  Forall P l -> nth_error l i = Some x -> P x.
+Proof. intros HF Hn. rewrite Forall_forall in HF. apply HF. eapply nth_error_In; eauto. Qed.
+
+(** ** the heap *)
+
+Lemma heap_pop_min_spec h :
+  match heap_pop_min h with
+  | None => h = []
+  | Some (x, r) =>
+      Permutation h (x :: r) /\ forall y, In y h -> ikey_ltb (snd y) (snd x) = false
+  end.
+Proof.
+  induction h as [|x h IH]; cbn [heap_pop_min]; [reflexivity|].
+  destruct (heap_pop_min h) as [[y r]|].
+  - destruct IH as [HP Hmin].
+    destruct (ikey_ltb (snd y) (snd x)) eqn:E.
+    + split.
+      * eapply perm_trans; [apply perm_skip; exact HP|apply perm_swap].
+      * intros z [<-|Hz]; [now apply rg_ikey_lt_nlt|auto].
+    + split; [apply Permutation_refl|].
+      intros z [<-|Hz].
+      * destruct (ikey_ltb (snd x) (snd x)) eqn:E2; [|reflexivity].
+        now apply rg_ikey_lt_irrefl in E2.
+      * eapply rg_ikey_nlt_trans; [exact E|auto].
+  - subst h. split; [apply Permutation_refl|].
+    intros z [<-|[]]. destruct (ikey_ltb (snd x) (snd x)) eqn:E2; [|reflexivity].
+    now apply rg_ikey_lt_irrefl in E2.
+Qed.
+
+Lemma heap_pop_max_spec h :
+  match heap_pop_max h with
+  | None => h = []
+  | Some (x, r) =>
+      Permutation h (x :: r) /\ forall y, In y h -> ikey_ltb (snd x) (snd y) = false
+  end.
+Proof.
+  induction h as [|x h IH]; cbn [heap_pop_max]; [reflexivity|].
+  destruct (heap_pop_max h) as [[y r]|].
+  - destruct IH as [HP Hmax].
+    destruct (ikey_ltb (snd x) (snd y)) eqn:E.
+    + split.
+      * eapply perm_trans; [apply perm_skip; exact HP|apply perm_swap].
+      * intros z [<-|Hz]; [now apply rg_ikey_lt_nlt|auto].
+    + split; [apply Permutation_refl|].
+      intros z [<-|Hz].
+      * destruct (ikey_ltb (snd x) (snd x)) eqn:E2; [|reflexivity].
+        now apply rg_ikey_lt_irrefl in E2.
+      * eapply rg_ikey_nlt_trans; [apply Hmax; exact Hz|exact E].
+  - subst h. split; [apply Permutation_refl|].
+    intros z [<-|[]]. destruct (ikey_ltb (snd x) (snd x)) eqn:E2; [|reflexivity].
+    now apply rg_ikey_lt_irrefl in E2.
+Qed.
+
+(** ** lazy initialisation *)
+
+Definition push_of (i : nat) (o : option entry) : heap :=
+  match o with Some x => [(i, x)] | None => [] end.
+
+Definition lo_step (t : tri) : tri :=
+  match src_next (mid t) with (Some x, m') => ([x], m', bk t) | (None, _) => t end.
+Definition hi_step (t : tri) : tri :=
+  match src_next_back (mid t) with (Some x, m') => (fr t, m', [x]) | (None, _) => t end.
+
+Lemma src_next_back_snoc l x : src_next_back (l ++ [x]) = (Some x, l).
+Proof.
+  destruct l as [|a l]; [reflexivity|]. cbn [app src_next_back].
+  change (a :: l ++ [x]) with ((a :: l) ++ [x]).
+  now rewrite last_last, rg_removelast_app_last.
+Qed.
+
+Lemma init_from_spec pop step (P : tri -> Prop) :
+  (forall t, P t ->
+     match pop (mid t) with
+     | (Some x, m') => mid (step t) = m' /\ forall i, Permutation (hg i (step t)) ((i, x) :: hg i t)
+     | (None, m') => step t = t /\ m' = mid t
+     end) ->
+  forall ts, Forall P ts -> forall idx h X, Permutation h (X ++ iflat hg idx ts) ->
+    fst (init_from pop idx (map mid ts) h) = map mid (map step ts)
+    /\ Permutation (snd (init_from pop idx (map mid ts) h)) (X ++ iflat hg idx (map step ts)).
+Proof.
+  intros Hstep ts HF. induction HF as [|t ts Ht HF IH]; intros idx h X HP.
+  - cbn. split; [reflexivity|exact HP].
+  - cbn [map init_from iflat] in *. specialize (Hstep t Ht).
+    destruct (pop (mid t)) as [[x|] m'].
+    + destruct Hstep as [Em Hh].
+      assert (HP' : Permutation ((idx, x) :: h) ((X ++ hg idx (step t)) ++ iflat hg (S idx) ts)).
+      { rewrite <- app_assoc.
+        eapply perm_trans; [apply perm_skip; exact HP|].
+        eapply perm_trans; [apply Permutation_middle|].
+        apply Permutation_app_head. rewrite !app_comm_cons.
+        apply Permutation_app_tail. apply Permutation_sym. apply Hh. }
+      destruct (IH (S idx) _ _ HP') as [E1 E2].
+      destruct (init_from pop (S idx) (map mid ts) ((idx, x) :: h)) as [rest' h''].
+      cbn [fst snd] in *. split.
+      * now rewrite Em, E1.
+      * now rewrite <- app_assoc in E2.
+    + destruct Hstep as [Et Em]. rewrite Et.
+      assert (HP' : Permutation h ((X ++ hg idx t) ++ iflat hg (S idx) ts)).
+      { now rewrite <- app_assoc. }
+      destruct (IH (S idx) _ _ HP') as [E1 E2].
+      destruct (init_from pop (S idx) (map mid ts) h) as [rest' h''].
+      cbn [fst snd] in *. split.
+      * now rewrite Em, E1.
+      * now rewrite <- app_assoc in E2.
+Qed.
+
+Lemma all_rem_map_ext f ts :
+  (forall t, In t ts -> rem (f t) = rem t) -> all_rem (map f ts) = all_rem ts.
+Proof.
+  unfold all_rem. generalize O. induction ts as [|t ts IH]; intros k H; [reflexivity|].
+  cbn [map iflat]. rewrite H by (left; reflexivity). f_equal. apply IH.
+  intros t' Ht'. apply H. right. exact Ht'.
+Qed.
+
+Lemma lo_step_rem t : fr t = [] -> rem (lo_step t) = rem t.
+Proof.
+  destruct t as [[f m] b]. unfold lo_step, rem, fr, mid, bk. cbn [fst snd]. intros ->.
+  destruct m as [|x m]; reflexivity.
+Qed.
+
+Lemma hi_step_rem t : bk t = [] -> rem (hi_step t) = rem t.
+Proof.
+  destruct t as [[f m] b]. unfold hi_step, rem, fr, mid, bk. cbn [fst snd]. intros ->.
+  destruct (rg_snoc_cases m) as [->|(m' & x & ->)]; [reflexivity|].
+  rewrite src_next_back_snoc. cbn [fst snd]. rewrite ?app_nil_r, <- ?app_assoc. reflexivity.
+Qed.
+
+Lemma init_lo_MRI ihi srcs h L :
+  MRI false ihi srcs h L ->
+  MRI true ihi (fst (init_from src_next O srcs h)) (snd (init_from src_next O srcs h)) L.
+Proof.
+  intros (ts & -> & Hh & Hok & HL & HSS).
+  assert (Hfr : Forall (fun t => fr t = []) ts).
+  { rewrite Forall_forall in *. intros t Ht. destruct (Hok t Ht) as (_ & _ & _ & H & _). auto. }
+  destruct (init_from_spec src_next lo_step (fun t => fr t = [])) with (ts := ts) (idx := O)
+    (h := h) (X := @nil (nat * entry)) as [E1 E2]; [|exact Hfr|exact Hh|].
+  { intros [[f m] b]. unfold lo_step, hg, fr, mid, bk. cbn [fst snd]. intros ->.
+    destruct m as [|x m]; cbn [src_next fst snd]; [split; reflexivity|].
+    split; [reflexivity|]. intros i. apply Permutation_refl. }
+  exists (map lo_step ts). split; [exact E1|]. split; [exact E2|]. split; [|split; [|exact HSS]].
+  - rewrite Forall_forall in *. intros t' Ht'. apply in_map_iff in Ht'.
+    destruct Ht' as (t & <- & Ht). specialize (Hok t Ht).
+    destruct t as [[f m] b]. unfold tri_ok, lo_step, rem, fr, mid, bk in *. cbn [fst snd] in *.
+    destruct Hok as (Hf & Hb & HS & Hlo & Hhi & _ & Hbm). specialize (Hlo eq_refl). subst f.
+    destruct m as [|x m]; cbn [src_next fst snd length app] in *.
+    + repeat split; auto.
+    + repeat split; auto; try discriminate. intros Hi Hb0. specialize (Hbm Hi Hb0). discriminate.
+  - rewrite all_rem_map_ext; [exact HL|]. intros t Ht. apply lo_step_rem.
+    rewrite Forall_forall in Hfr. auto.
+Qed.
+
+Lemma init_hi_MRI ilo srcs h L :
+  MRI ilo false srcs h L ->
+  MRI ilo true (fst (init_from src_next_back O srcs h)) (snd (init_from src_next_back O srcs h)) L.
+Proof.
+  intros (ts & -> & Hh & Hok & HL & HSS).
+  assert (Hbk : Forall (fun t => bk t = []) ts).
+  { rewrite Forall_forall in *. intros t Ht. destruct (Hok t Ht) as (_ & _ & _ & _ & H & _). auto. }
+  destruct (init_from_spec src_next_back hi_step (fun t => bk t = [])) with (ts := ts) (idx := O)
+    (h := h) (X := @nil (nat * entry)) as [E1 E2]; [|exact Hbk|exact Hh|].
+  { intros [[f m] b]. unfold hi_step, hg, fr, mid, bk. cbn [fst snd]. intros ->.
+    destruct (rg_snoc_cases m) as [->|(m' & x & ->)]; [split; reflexivity|].
+    rewrite src_next_back_snoc. cbn [fst snd].
+    split; [reflexivity|]. intros i. rewrite app_nil_r, map_app. cbn [map].
+    apply Permutation_sym. apply Permutation_cons_append. }
+  exists (map hi_step ts). split; [exact E1|]. split; [exact E2|]. split; [|split; [|exact HSS]].
+  - rewrite Forall_forall in *. intros t' Ht'. apply in_map_iff in Ht'.
+    destruct Ht' as (t & <- & Ht). specialize (Hok t Ht).
+    destruct t as [[f m] b]. unfold tri_ok, hi_step, rem, fr, mid, bk in *. cbn [fst snd] in *.
+    destruct Hok as (Hf & Hb & HS & Hlo & Hhi & Hfm & _). specialize (Hhi eq_refl). subst b.
+    destruct (rg_snoc_cases m) as [->|(m' & x & ->)].
+    + cbn [src_next_back fst snd length app] in *. repeat split; auto.
+    + rewrite src_next_back_snoc. cbn [fst snd length]. rewrite app_nil_r in HS.
+      repeat split; auto; try discriminate; try (now rewrite <- ?app_assoc in HS).
+      intros Hi Hf0. specialize (Hfm Hi Hf0). destruct m'; discriminate.
+  - rewrite all_rem_map_ext; [exact HL|]. intros t Ht. apply hi_step_rem.
+    rewrite Forall_forall in Hbk. auto.
+Qed.
+
+(** ** popping *)
+
+Lemma tri_head_in_heap ihi t a r :
+  tri_ok true ihi t -> rem t = a :: r -> In a (fr t ++ bk t).
+Proof.
+  destruct t as [[f m] b]. unfold tri_ok, rem, fr, mid, bk. cbn [fst snd].
+  intros (_ & _ & _ & _ & _ & Hfm & _) E.
+  destruct f as [|x f].
+  - rewrite (Hfm eq_refl eq_refl) in E. cbn [app] in *. rewrite E. left. reflexivity.
+  - cbn [app] in E. inversion E; subst. left. reflexivity.
+Qed.
+
+Lemma tri_last_in_heap ilo t a r :
+  tri_ok ilo true t -> rem t = r ++ [a] -> In a (fr t ++ bk t).
+Proof.
+  destruct t as [[f m] b]. unfold tri_ok, rem, fr, mid, bk. cbn [fst snd].
+  intros (_ & _ & _ & _ & _ & _ & Hbm) E.
+  destruct (rg_snoc_cases b) as [->|(b' & x & ->)].
+  - rewrite (Hbm eq_refl eq_refl) in E. rewrite !app_nil_r in *. rewrite E.
+    apply in_or_app. right. left. reflexivity.
+  - rewrite !app_assoc in E. apply app_inj_tail in E. destruct E as [_ ->].
+    apply in_or_app. right. apply in_or_app. right. left. reflexivity.
+Qed.
+
+Lemma tri_pop_front ihi t e r :
+  tri_ok true ihi t -> rem t = e :: r ->
+  exists t', mid t' = snd (src_next (mid t)) /\ rem t' = r /\ tri_ok true ihi t'
+    /\ forall i, Permutation ((i, e) :: hg i t') (push_of i (fst (src_next (mid t))) ++ hg i t).
+Proof.
+  destruct t as [[f m] b]. unfold tri_ok, rem, hg, fr, mid, bk. cbn [fst snd].
+  intros (Hf & Hb & HS & Hlo & Hhi & Hfm & Hbm) E.
+  destruct f as [|a [|a2 f2]]; [| |cbn [length] in Hf; lia].
+  - specialize (Hfm eq_refl eq_refl). subst m. cbn [app] in E.
+    destruct b as [|b0 [|b1 b2]]; [discriminate| |cbn [length] in Hb; lia].
+    inversion E; subst b0 r.
+    exists ([], [], []). cbn [fst snd src_next app length map push_of].
+    repeat split; auto; try constructor.
+  - cbn [app] in E. inversion E; subst a r. inversion HS as [|? ? HS' _]; subst.
+    destruct m as [|x m'].
+    + exists ([], [], b). cbn [fst snd src_next app length map push_of].
+      repeat split; auto; try lia.
+    + exists ([x], m', b). cbn [fst snd src_next app length map push_of] in *.
+      repeat split; auto; try discriminate.
+      * intros Hi Hb0. specialize (Hbm Hi Hb0). discriminate.
+      * intros i. apply perm_swap.
+Qed.
+
+Lemma tri_pop_back ilo t e r :
+  tri_ok ilo true t -> rem t = r ++ [e] ->
+  exists t', mid t' = snd (src_next_back (mid t)) /\ rem t' = r /\ tri_ok ilo true t'
+    /\ forall i, Permutation ((i, e) :: hg i t') (push_of i (fst (src_next_back (mid t))) ++ hg i t).
+Proof.
+  destruct t as [[f m] b]. unfold tri_ok, rem, hg, fr, mid, bk. cbn [fst snd].
+  intros (Hf & Hb & HS & Hlo & Hhi & Hfm & Hbm) E.
+  destruct b as [|a [|a2 b2]]; [| |cbn [length] in Hb; lia].
+  - specialize (Hbm eq_refl eq_refl). subst m. rewrite !app_nil_r in *.
+    destruct f as [|f0 [|f1 f2]]; [destruct r; discriminate| |cbn [length] in Hf; lia].
+    assert (r = [] /\ f0 = e) as [-> ->].
+    { destruct r as [|r0 r]; [inversion E; auto|].
+      inversion E as [[E1 E2]]. destruct r; discriminate. }
+    exists ([], [], []). cbn [fst snd src_next_back app length map push_of].
+    repeat split; auto; try constructor.
+  - rewrite !app_assoc in E. apply app_inj_tail in E. destruct E as [<- ->].
+    rewrite !app_assoc in HS. apply rg_SS_app_inv in HS. destruct HS as (HS' & _ & _).
+    destruct (rg_snoc_cases m) as [->|(m' & x & ->)].
+    + exists (f, [], []). cbn [fst snd src_next_back app length map push_of].
+      rewrite !app_nil_r in *. repeat split; auto; try lia.
+      intros i. rewrite map_app. cbn [map]. apply Permutation_cons_append.
+    + rewrite src_next_back_snoc. exists (f, m', [x]). cbn [fst snd app length map push_of].
+      repeat split; auto; try discriminate.
+      * intros Hi Hf0. specialize (Hfm Hi Hf0). destruct m'; discriminate.
+      * intros i. rewrite !map_app. cbn [map].
+        eapply perm_trans; [apply perm_skip; apply Permutation_sym; apply Permutation_cons_append|].
+        eapply perm_trans; [apply perm_swap|].
+        apply perm_skip. apply Permutation_cons_append.
+Qed.
+
+Lemma heap_of_nil_rem ilo ihi ts :
+  ilo = true \/ ihi = true ->
+  Forall (tri_ok ilo ihi) ts -> heap_of ts = [] -> all_rem ts = [].
+Proof.
+  intros Hflag. unfold heap_of, all_rem. generalize O.
+  induction ts as [|t ts IH]; intros k HF E; [reflexivity|].
+  cbn [iflat] in *. apply app_eq_nil in E. destruct E as [E1 E2].
+  inversion HF as [|? ? Ht HF']; subst. rewrite (IH _ HF' E2), app_nil_r.
+  unfold hg in E1. apply map_eq_nil in E1. apply app_eq_nil in E1. destruct E1 as [Ef Eb].
+  destruct Ht as (_ & _ & _ & _ & _ & Hfm & Hbm). unfold rem. rewrite Ef, Eb.
+  destruct Hflag as [->| ->]; [rewrite (Hfm eq_refl Ef)|rewrite (Hbm eq_refl Eb)]; reflexivity.
+Qed.
+
+(** the heap update shared by both directions *)
+Lemma heap_update h h' i e o A B (gt gt' : heap) :
+  Permutation h ((i, e) :: h') -> Permutation h (A ++ gt ++ B) ->
+  Permutation ((i, e) :: gt') (push_of i o ++ gt) ->
+  Permutation (push_of i o ++ h') (A ++ gt' ++ B).
+Proof.
+  intros H1 H2 H3. apply (Permutation_cons_inv (a := (i, e))).
+  eapply perm_trans; [apply Permutation_middle|].
+  eapply perm_trans; [apply Permutation_app_head; apply Permutation_sym; exact H1|].
+  eapply perm_trans; [apply Permutation_app_head; exact H2|].
+  eapply perm_trans; [apply Permutation_app_swap_app|].
+  apply Permutation_sym. eapply perm_trans; [apply Permutation_middle|].
+  apply Permutation_app_head.
+  change ((i, e) :: gt' ++ B) with (((i, e) :: gt') ++ B). rewrite (app_assoc (push_of i o)).
+  apply Permutation_app_tail. exact H3.
+Qed.
+
+Lemma pop_min_MRI ihi srcs h L :
+  MRI true ihi srcs h L ->
+  match heap_pop_min h with
+  | None => L = []
+  | Some ((i, e), h') =>
+      exists L', L = e :: L' /\
+        MRI true ihi (set_nth i (snd (src_next (nth i srcs []))) srcs)
+            (push_of i (fst (src_next (nth i srcs []))) ++ h') L'
+  end.
+Proof.
+  intros (ts & -> & Hh & Hok & HL & HSS).
+  pose proof (heap_pop_min_spec h) as Hp.
+  destruct (heap_pop_min h) as [[[i e] h']|].
+  - destruct Hp as [HP Hmin].
+    assert (Hin : In (i, e) (heap_of ts)).
+    { eapply Permutation_in; [exact Hh|]. eapply Permutation_in; [apply Permutation_sym; exact HP|].
+      left. reflexivity. }
+    apply in_heap_of in Hin. destruct Hin as (t & Hn & Hin).
+    pose proof (Forall_nth_error _ _ _ _ Hok Hn) as Ht.
+    assert (HeL : forall x, In x (rem t) -> In x L).
+    { intros x Hx. eapply Permutation_in; [apply Permutation_sym; exact HL|].
+      apply in_all_rem. eauto. }
+    assert (Her : In e (rem t)).
+    { unfold rem. apply in_app_or in Hin. apply in_or_app.
+      destruct Hin; [left|right; apply in_or_app; right]; assumption. }
+    assert (HminL : forall x, In x L -> ikey_ltb x e = false).
+    { intros x Hx. eapply Permutation_in in Hx; [|exact HL].
+      apply in_all_rem in Hx. destruct Hx as (j & tj & Hnj & Hxj).
+      pose proof (Forall_nth_error _ _ _ _ Hok Hnj) as Htj.
+      destruct (rem tj) as [|a r] eqn:Er; [contradiction|].
+      pose proof (tri_head_in_heap _ _ _ _ Htj Er) as Ha.
+      assert (Hah : In (j, a) h).
+      { eapply Permutation_in; [apply Permutation_sym; exact Hh|]. apply in_heap_of. eauto. }
+      specialize (Hmin _ Hah). cbn [snd] in Hmin.
+      destruct Hxj as [<-|Hxr]; [exact Hmin|].
+      destruct Htj as (_ & _ & HSj & _). rewrite Er in HSj. inversion HSj as [|? ? _ HFj]; subst.
+      rewrite Forall_forall in HFj. specialize (HFj x Hxr).
+      destruct (ikey_ltb x e) eqn:Exe; [|reflexivity]. exfalso.
+      assert (Hae : ikey_lt a e) by (eapply rg_ikey_lt_trans; eauto).
+      unfold ikey_lt in Hae. congruence. }
+    destruct (rg_sorted_min_head L e HSS (HeL e Her) HminL) as (L' & ->).
+    exists L'. split; [reflexivity|].
+    assert (HSt : StronglySorted ikey_lt (rem t)) by (destruct Ht as (_ & _ & H & _); exact H).
+    destruct (rg_sorted_min_head (rem t) e HSt Her) as (r & Er).
+    { intros x Hx. apply HminL. auto. }
+    destruct (tri_pop_front ihi t e r Ht Er) as (t' & Em & Er' & Ht' & Hperm).
+    rewrite (nth_map_error mid ts i t [] Hn).
+    exists (set_nth i t' ts). split; [|split; [|split; [|split]]].
+    + now rewrite map_set_nth, Em.
+    + destruct (iflat_ctx hg ts O i t Hn) as (A & B & E1 & E2). unfold heap_of. rewrite E2.
+      cbn [Nat.add] in *. eapply heap_update; [exact HP| |apply Hperm].
+      unfold heap_of in Hh. now rewrite E1 in Hh.
+    + apply Forall_set_nth; assumption.
+    + destruct (iflat_ctx (fun _ t => rem t) ts O i t Hn) as (A & B & E1 & E2).
+      unfold all_rem in *. rewrite E2, Er'. rewrite E1, Er in HL. cbn [app] in HL.
+      eapply Permutation_cons_app_inv. exact HL.
+    + now inversion HSS.
+  - subst h. apply Permutation_nil in Hh.
+    rewrite (heap_of_nil_rem true ihi ts) in HL; auto.
+    now apply Permutation_sym, Permutation_nil in HL.
+Qed.
+
+Lemma pop_max_MRI ilo srcs h L :
+  MRI ilo true srcs h L ->
+  match heap_pop_max h with
+  | None => L = []
+  | Some ((i, e), h') =>
+      exists L', L = L' ++ [e] /\
+        MRI ilo true (set_nth i (snd (src_next_back (nth i srcs []))) srcs)
+            (push_of i (fst (src_next_back (nth i srcs []))) ++ h') L'
+  end.
+Proof.
+  intros (ts & -> & Hh & Hok & HL & HSS).
+  pose proof (heap_pop_max_spec h) as Hp.
+  destruct (heap_pop_max h) as [[[i e] h']|].
+  - destruct Hp as [HP Hmax].
+    assert (Hin : In (i, e) (heap_of ts)).
+    { eapply Permutation_in; [exact Hh|]. eapply Permutation_in; [apply Permutation_sym; exact HP|].
+      left. reflexivity. }
+    apply in_heap_of in Hin. destruct Hin as (t & Hn & Hin).
+    pose proof (Forall_nth_error _ _ _ _ Hok Hn) as Ht.
+    assert (HeL : forall x, In x (rem t) -> In x L).
+    { intros x Hx. eapply Permutation_in; [apply Permutation_sym; exact HL|].
+      apply in_all_rem. eauto. }
+    assert (Her : In e (rem t)).
+    { unfold rem. apply in_app_or in Hin. apply in_or_app.
+      destruct Hin; [left|right; apply in_or_app; right]; assumption. }
+    assert (HmaxL : forall x, In x L -> ikey_ltb e x = false).
+    { intros x Hx. eapply Permutation_in in Hx; [|exact HL].
+      apply in_all_rem in Hx. destruct Hx as (j & tj & Hnj & Hxj).
+      pose proof (Forall_nth_error _ _ _ _ Hok Hnj) as Htj.
+      destruct (rg_snoc_cases (rem tj)) as [Er|(r & a & Er)]; [rewrite Er in Hxj; contradiction|].
+      pose proof (tri_last_in_heap _ _ _ _ Htj Er) as Ha.
+      assert (Hah : In (j, a) h).
+      { eapply Permutation_in; [apply Permutation_sym; exact Hh|]. apply in_heap_of. eauto. }
+      specialize (Hmax _ Hah). cbn [snd] in Hmax.
+      rewrite Er in Hxj. apply in_app_or in Hxj.
+      destruct Hxj as [Hxr|[<-|[]]]; [|exact Hmax].
+      destruct Htj as (_ & _ & HSj & _). rewrite Er in HSj.
+      apply rg_SS_app_inv in HSj. destruct HSj as (_ & _ & HFj).
+      specialize (HFj x a Hxr (or_introl eq_refl)).
+      destruct (ikey_ltb e x) eqn:Exe; [|reflexivity]. exfalso.
+      assert (Hae : ikey_lt e a) by (eapply rg_ikey_lt_trans; eauto).
+      unfold ikey_lt in Hae. congruence. }
+    destruct (rg_sorted_max_last L e HSS (HeL e Her) HmaxL) as (L' & ->).
+    exists L'. split; [reflexivity|].
+    assert (HSt : StronglySorted ikey_lt (rem t)) by (destruct Ht as (_ & _ & H & _); exact H).
+    destruct (rg_sorted_max_last (rem t) e HSt Her) as (r & Er).
+    { intros x Hx. apply HmaxL. auto. }
+    destruct (tri_pop_back ilo t e r Ht Er) as (t' & Em & Er' & Ht' & Hperm).
+    rewrite (nth_map_error mid ts i t [] Hn).
+    exists (set_nth i t' ts). split; [|split; [|split; [|split]]].
+    + now rewrite map_set_nth, Em.
+    + destruct (iflat_ctx hg ts O i t Hn) as (A & B & E1 & E2). unfold heap_of. rewrite E2.
+      cbn [Nat.add] in *. eapply heap_update; [exact HP| |apply Hperm].
+      unfold heap_of in Hh. now rewrite E1 in Hh.
+    + apply Forall_set_nth; assumption.
+    + destruct (iflat_ctx (fun _ t => rem t) ts O i t Hn) as (A & B & E1 & E2).
+      unfold all_rem in *. rewrite E2, Er'. rewrite E1, Er in HL.
+      rewrite app_assoc. apply Permutation_cons_app_inv with (a := e).
+      eapply perm_trans; [apply Permutation_cons_append|].
+      eapply perm_trans; [exact HL|]. rewrite <- !app_assoc. cbn [app]. apply Permutation_refl.
+    + now apply rg_SS_app_inv in HSS.
+  - subst h. apply Permutation_nil in Hh.
+    rewrite (heap_of_nil_rem ilo true ts) in HL; auto.
+    now apply Permutation_sym, Permutation_nil in HL.
+Qed.
+
+Lemma merge_next_spec m L : MR m L ->
+  exists m', merge_next m = (ohd L, m') /\ MR m' (tl L).
+Proof.
+  unfold MR, merge_next. destruct m as [srcs h ilo ihi]. cbn [m_srcs m_heap m_ilo m_ihi].
+  intros H.
+  assert (H1 : exists srcs1 h1,
+    (if ilo then mkMg srcs h ilo ihi
+     else let (srcs', h') := init_from src_next O srcs h in mkMg srcs' h' true ihi)
+    = mkMg srcs1 h1 true ihi /\ MRI true ihi srcs1 h1 L).
+  { destruct ilo.
+    - exists srcs, h. auto.
+    - apply init_lo_MRI in H. destruct (init_from src_next O srcs h) as [s' h'].
+      exists s', h'. auto. }
+  destruct H1 as (srcs1 & h1 & -> & H1). cbn [m_srcs m_heap m_ilo m_ihi].
+  pose proof (pop_min_MRI _ _ _ _ H1) as Hp. destruct (heap_pop_min h1) as [[[i e] h']|].
+  - destruct Hp as (L' & -> & Hp).
+    destruct (src_next (nth i srcs1 [])) as [o s'] eqn:E. cbn [fst snd] in Hp.
+    eexists. split; [reflexivity|]. cbn [tl m_srcs m_heap m_ilo m_ihi].
+    destruct o; exact Hp.
+  - subst L. eexists. split; [reflexivity|]. exact H1.
+Qed.
+
+Lemma merge_next_back_spec m L : MR m L ->
+  exists m', merge_next_back m = (olast L, m') /\ MR m' (removelast L).
+Proof.
+  unfold MR, merge_next_back. destruct m as [srcs h ilo ihi]. cbn [m_srcs m_heap m_ilo m_ihi].
+  intros H.
+  assert (H1 : exists srcs1 h1,
+    (if ihi then mkMg srcs h ilo ihi
+     else let (srcs', h') := init_from src_next_back O srcs h in mkMg srcs' h' ilo true)
+    = mkMg srcs1 h1 ilo true /\ MRI ilo true srcs1 h1 L).
+  { destruct ihi.
+    - exists srcs, h. auto.
+    - apply init_hi_MRI in H. destruct (init_from src_next_back O srcs h) as [s' h'].
+      exists s', h'. auto. }
+  destruct H1 as (srcs1 & h1 & -> & H1). cbn [m_srcs m_heap m_ilo m_ihi].
+  pose proof (pop_max_MRI _ _ _ _ H1) as Hp. destruct (heap_pop_max h1) as [[[i e] h']|].
+  - destruct Hp as (L' & -> & Hp).
+    destruct (src_next_back (nth i srcs1 [])) as [o s'] eqn:E. cbn [fst snd] in Hp.
+    eexists. split; [rewrite olast_snoc; reflexivity|].
+    rewrite rg_removelast_app_last. cbn [m_srcs m_heap m_ilo m_ihi].
+    destruct o; exact Hp.
+  - subst L. eexists. split; [reflexivity|]. exact H1.
+Qed.
+
+(** a fresh merger over sorted sources whose sorted union is [L] *)
+Lemma merger_new_MR srcs L :
+  Forall (StronglySorted ikey_lt) srcs -> StronglySorted ikey_lt L ->
+  Permutation L (concat srcs) -> MR (merger_new srcs) L.
+Proof.
+  intros HF HSS HP. unfold MR, merger_new. cbn [m_srcs m_heap m_ilo m_ihi].
+  exists (map (fun s => ([], s, [])) srcs).
+  assert (E1 : forall k, iflat hg k (map (fun s => ([], s, [])) srcs) = []).
+  { clear. induction srcs as [|s srcs IH]; intros k; [reflexivity|].
+    cbn [map iflat]. rewrite IH. reflexivity. }
+  assert (E2 : forall k, iflat (fun _ t => rem t) k (map (fun s => ([], s, [])) srcs) = concat srcs).
+  { clear. induction srcs as [|s srcs IH]; intros k; [reflexivity|].
+    cbn [map iflat concat]. rewrite IH. unfold rem, fr, mid, bk. cbn [fst snd app].
+    now rewrite app_nil_r. }
+  split; [|split; [|split; [|split]]].
+  - rewrite map_map. cbn. now rewrite map_id.
+  - unfold heap_of. rewrite E1. apply Permutation_refl.
+  - rewrite Forall_forall in *. intros t Ht. apply in_map_iff in Ht.
+    destruct Ht as (s & <- & Hs). unfold tri_ok, rem, fr, mid, bk. cbn [fst snd app length].
+    rewrite app_nil_r. repeat split; auto; discriminate.
+  - unfold all_rem. now rewrite E2.
+  - exact HSS.
 Qed.
